@@ -14,17 +14,20 @@ PID = "C17"
 CLAIM = dict(
     text="Coq theorems over an executable model of http.parse_accept_header (list and options parsers, q grammar, range "
          "check, option reconstruction) and of Accept / MIMEAccept / LanguageAccept / CharsetAccept (stable sort by "
-         "(specificity, quality), range matching, quality, best_match, the two language fallbacks): the negotiated offer is "
+         "(specificity, quality), range matching, quality, best_match, best, values, to_header/str, the two language fallbacks; "
+         "RFC 2231 key*= parameters included): the negotiated offer is "
          "optimal for the client's qualities with the stated tie rules, None exactly when no offer has a positive quality, "
-         "items with malformed or out-of-range q are dropped, the parsed list is a stable rearrangement. Decision "
+         "items with malformed or out-of-range q are dropped, the parsed list is a stable rearrangement; a header "
+         "written from plain items parses back to them (so optimality holds for header text end to end) and str(accept) "
+         "round-trips. Decision "
          "expressions (range check, sort key, best_match conditions, the four _value_matches, _specificity) and the regex "
          "texts / token tables are regenerated from the source on every run; the rest is tied by differential execution "
          "(extracted OCaml model vs werkzeug) on ~30k header x offers cases per quick run.",
     note="Trusted: Coq kernel; translator tools/c17.py (atom table); ExtrOcamlBasic extraction + driver; q literals restricted "
          "to <= 15 significant digits and <= 300 fraction digits so that float comparison equals decimal-rational comparison; "
          "sorted(reverse=True) is a stable sort (modelled by a stable insertion sort); codecs.lookup enters as a harness-supplied "
-         "normalisation table; ASCII case mapping; RFC 2231 star-suffixed parameters (key*=...) are outside the model "
-         "(reported as unsupported and skipped).",
+         "normalisation table; ASCII case mapping; urllib.parse.unquote and the three allow-listed codecs of RFC 2231 "
+         "parameters are hand-modelled.",
     design="6/C17")
 
 
@@ -42,10 +45,10 @@ class _Tx:
             return self.operands[text]
         if isinstance(node, ast.Constant) and isinstance(node.value, int) and not isinstance(node.value, bool):
             if peer_type == "Q":
-                return "Q", f"(q_of_Z ({node.value})%Z)"
+                return "Q", f"(ofZ ({node.value})%Z)"
         if (isinstance(node, ast.UnaryOp) and isinstance(node.op, ast.USub) and isinstance(node.operand, ast.Constant)
                 and isinstance(node.operand.value, int) and peer_type == "Q"):
-            return "Q", f"(q_of_Z (-{node.operand.value})%Z)"
+            return "Q", f"(ofZ (-{node.operand.value})%Z)"
         raise px.Unsupported(f"unknown operand {text!r}")
 
     def cmp(self, left: ast.expr, op: ast.cmpop, right: ast.expr) -> str:
@@ -66,8 +69,10 @@ class _Tx:
         if lt != rt:
             raise px.Unsupported(f"comparison between {lt} and {rt}: {ast.unparse(left)} / {ast.unparse(right)}")
         table = {
-            "Q": {ast.Lt: "(qltb {l} {r})", ast.LtE: "(qleb {l} {r})", ast.Gt: "(qltb {r} {l})", ast.GtE: "(qleb {r} {l})",
-                  ast.Eq: "(qeqb {l} {r})", ast.NotEq: "(negb (qeqb {l} {r}))"},
+            # quality comparisons are emitted over an abstract ordered type (T, tlt, tle, teq, ofZ): instantiated with decimal
+            # rationals for the model and with any float-like type satisfying the float contract (C17_float_contract)
+            "Q": {ast.Lt: "(tlt {l} {r})", ast.LtE: "(tle {l} {r})", ast.Gt: "(tlt {r} {l})", ast.GtE: "(tle {r} {l})",
+                  ast.Eq: "(teq {l} {r})", ast.NotEq: "(negb (teq {l} {r}))"},
             "S": {ast.Lt: "(spec_ltb {l} {r})", ast.LtE: "(spec_leb {l} {r})", ast.Gt: "(spec_ltb {r} {l})",
                   ast.GtE: "(spec_leb {r} {l})", ast.Eq: "(spec_eqb {l} {r})", ast.NotEq: "(negb (spec_eqb {l} {r}))"},
             "str": {ast.Eq: "(str_eqb {l} {r})", ast.NotEq: "(str_neqb {l} {r})"},
@@ -171,7 +176,7 @@ def gen() -> None:
     http = px.load("http.py")
     acc = px.load("datastructures/accept.py")
     out = ["(* GENERATED by tools/c17.py from http.py, datastructures/accept.py on every run - do not edit *)",
-           "From Wz Require Import lib.Bytes C17.Base.", "Open Scope N_scope.", ""]
+           "From Coq Require Import ZArith.", "From Wz Require Import lib.Bytes C17.Base.", "Open Scope N_scope.", ""]
 
     # ---------------------------------------------------------------- T1: pattern texts, flags, tables
     for name, coqname, mod in [("_q_value_re", "q_value_re", http), ("_continuation_re", "continuation_re", http),
@@ -191,6 +196,28 @@ def gen() -> None:
     ttab = _class_of(tpat, tflags, "", "", "_parameter_token_value_re")
     out.append(f"Definition param_key_class : list (N * N) := {px.coq_ranges(ktab)}.")
     out.append(f"Definition param_token_class : list (N * N) := {px.coq_ranges(ttab)}.")
+    # RFC 2231: _charset_value_re (VERBOSE) = ([c1]*)'  [lang]*'  ([c2]+) ; the allow list of parse_options_header
+    cpat, cflags = px.regex_of(px.find_assign(http, "_charset_value_re"))
+    if not isinstance(cpat, str) or not (cflags & re.X) or not (cflags & re.A):
+        raise px.Unsupported("_charset_value_re is not a str pattern with re.ASCII | re.VERBOSE")
+    ctxt = "".join(re.sub(r"\s+#\s.*", "", ln).strip() for ln in cpat.splitlines())
+    m = re.fullmatch(r"\((\[[^\]]+\])\*\)'(\[[^\]]+\])\*'\((\[[^\]]+\])\+\)", ctxt)
+    if m is None:
+        raise px.Unsupported(f"_charset_value_re does not have the modelled shape: {ctxt!r}")
+    out.append(f"Definition charset_value_re_text : list N := {px.coq_string_codes(ctxt)}.")
+    out.append(f"Definition charset_value_re_flags : N := {int(cflags)}.")
+    for nm, grp in (("charset_c1_class", 1), ("charset_lang_class", 2), ("charset_c2_class", 3)):
+        tab = _class_of(m.group(grp) + "+", cflags & ~re.X, "", "", "_charset_value_re " + nm)
+        out.append(f"Definition {nm} : list (N * N) := {px.coq_ranges(tab)}.")
+    poh = px.find_def(http, "parse_options_header")
+    sets = [n for n in ast.walk(poh) if isinstance(n, ast.Compare) and len(n.ops) == 1 and isinstance(n.ops[0], ast.In)
+            and ast.unparse(n.left) == "encoding" and isinstance(n.comparators[0], ast.Set)]
+    if len(sets) != 1:
+        raise px.Unsupported("parse_options_header: expected one `encoding in {...}` test")
+    allowed = [px.const(e) for e in sets[0].comparators[0].elts]
+    if not all(isinstance(a, str) and a.isascii() for a in allowed):
+        raise px.Unsupported("charset allow list is not a set of ASCII strings")
+    out.append("Definition options_charsets : list (list N) := [" + "; ".join(px.coq_string_codes(a) for a in sorted(allowed)) + "].")
     tc = px.find_assign(http, "_token_chars")
     if not (isinstance(tc, ast.Call) and ast.unparse(tc.func) == "frozenset" and len(tc.args) == 1 and not tc.keywords):
         raise px.Unsupported("_token_chars is not frozenset(<literal>)")
@@ -229,7 +256,8 @@ def gen() -> None:
     if not (isinstance(rng, ast.If) and not rng.orelse and len(rng.body) == 1 and isinstance(rng.body[0], ast.Continue)):
         raise px.Unsupported("parse_accept_header range check is not `if <cond>: continue`")
     tq = _Tx({"q": ("Q", "q")})
-    out.append(f"Definition q_out_of_range (q : Qd) : bool := {tq.expr(rng.test)}.")
+    out.append(f"Definition g_q_out_of_range (T : Type) (tlt tle teq : T -> T -> bool) (ofZ : Z -> T) (q : T) : bool := {tq.expr(rng.test)}.")
+    out.append("Definition q_out_of_range : Qd -> bool := g_q_out_of_range Qd qltb qleb qeqb q_of_Z.")
     dflt = qif.orelse[0]
     if not (isinstance(dflt, ast.Assign) and ast.unparse(dflt.targets[0]) == "q" and isinstance(dflt.value, ast.Constant)
             and isinstance(dflt.value.value, int)):
@@ -305,9 +333,11 @@ def gen() -> None:
             "Accept.best_match take branch")
     tb = _Tx({"quality": ("Q", "quality"), "best_quality": ("Q", "best_quality"),
               "specificity": ("S", "specificity"), "best_specificity": ("S", "best_specificity")})
-    out.append(f"Definition bm_skip (quality best_quality : Qd) : bool := {tb.expr(skip.test)}.")
-    out.append("Definition bm_take (quality best_quality : Qd) (specificity best_specificity : spec) : bool := "
+    out.append(f"Definition g_bm_skip (T : Type) (tlt tle teq : T -> T -> bool) (ofZ : Z -> T) (quality best_quality : T) : bool := {tb.expr(skip.test)}.")
+    out.append("Definition g_bm_take (T : Type) (tlt tle teq : T -> T -> bool) (ofZ : Z -> T) (quality best_quality : T) (specificity best_specificity : spec) : bool := "
                + tb.expr(take.test) + ".")
+    out.append("Definition bm_skip : Qd -> Qd -> bool := g_bm_skip Qd qltb qleb qeqb q_of_Z.")
+    out.append("Definition bm_take : Qd -> Qd -> spec -> spec -> bool := g_bm_take Qd qltb qleb qeqb q_of_Z.")
 
     # ---------------------------------------------------------------- T2: MIMEAccept
     _expect(_stmts(px.find_def(acc, "_normalize_mime")), ["return _mime_split_re.split(value.lower())"], "_normalize_mime")
@@ -410,7 +440,7 @@ WEIRD_ITEMS = ["", "*", "**", "*/*", "*/html", "text/", "/html", "/", "text/html
                "text/html;level", ";", "; level=1", "a\x00b", "utf-8\x00", "a/b　;　c=d"]
 HDR_ATOMS = [",", ",", ";", ";", "=", '"', "\\", "*", "/", "-", "_", "q", "Q", "q=", ";q=", "0", ".", "1", "5", "a", "b", "en",
              "US", " ", " ", "\t", "%22", "*0", "*1", "text", "html", "level", "utf-8", " ", "\x0b", "\x1f", " ",
-             "'", "+", "x", "0.5", "1.000", "-1", "=\"", "\";", "\\\"", "\\\\", "é", "٠"]
+             "'", "+", "x", "0.5", "*=", "utf-8''", "%41", "%C3%A9", "%ff", "%4", "iso-8859-1''", "''", "a*=", "1.000", "-1", "=\"", "\";", "\\\"", "\\\\", "é", "٠"]
 
 
 def _ascii_lower(s: str) -> str:
@@ -537,7 +567,10 @@ def _gen_malformed(rng, fam: str):
                 it += rng.choice(Q_FORMS).format(rng.choice(Q_VALID + Q_INVALID))
             elif q < 0.7:
                 it += rng.choice([";x=y", '; a="b c"', ";q", ";q=;", ";*0=x", ";a*0=x;a*1=y", ';a="x\\"y";q=0.5', ";q=0.5;q=0.7",
-                                  ";q=1;Q=0", ';b="%22"', ";a*=utf-8''x", ";q*=UTF-8''0.5", ";a*=x;q=0.5", ";q*0=0;q*1=.5", ";=1", ";a**0=z", "; q = 0.5", ';q="0.5', ";q=0.5 x"])
+                                  ";q=1;Q=0", ';b="%22"', ";a*=utf-8''x", ";q*=UTF-8''0.5", ";a*=x;q=0.5", ";a*=utf-8''%41%42", ";a*=UTF-8'en'%C3%A9", ";a*=iso-8859-1''%E9",
+                                  ";a*=us-ascii''%E9x", ";a*=utf-16''%41", ";a*0*=utf-8''%41;a*1*=%42", ';a*="%41"', ";q*=utf-8''0%2E5",
+                                  ";a*=''%41;b*=%42", ";a*=utf-8''%ZZ%4", ";*=utf-8''x", ";level*=utf-8''1", ";a*=utf-8''%C3;b*=%A9",
+                                  ";a*=utf-8''%F0%9F%98%80%ff", ";q*=ascii''0.%35", ";a*=utf-8''%22x%22", ";a*=utf-8''é%41", ";q*0=0;q*1=.5", ";=1", ";a**0=z", "; q = 0.5", ';q="0.5', ";q=0.5 x"])
             items.append(it)
         header = rng.choice([",", ", ", ",,"]).join(items)
     else:
@@ -594,7 +627,8 @@ def _observe(acc, offers):
             ins.append(o in acc)
         except Exception as e:  # noqa: BLE001
             ins.append(_exn(e))
-    return {"items": items, "best": best, "bm": bm, "quals": quals, "ins": ins}
+    return {"items": items, "best": best, "bm": bm, "quals": quals, "ins": ins,
+            "th": acc.to_header(), "str": str(acc), "values": list(acc.values())}
 
 
 def _impl_header(fam: str, header: str, offers):
@@ -619,7 +653,7 @@ def _parse_model(line: str):
     """model output -> the same structure as _observe (qualities as Fractions)"""
     if not line.startswith("ok "):
         return line
-    _, items, best, bm, quals, ins = line.split(" ")
+    _, items, best, bm, quals, ins, th, vals = line.split(" ")
     its = []
     if items != "~":
         for it in items.split("|"):
@@ -627,7 +661,8 @@ def _parse_model(line: str):
             its.append((_unq(v), _frac(n + ":" + s)))
     return {"items": its, "best": _unq(best), "bm": bm if bm.startswith("!") else _unq(bm),
             "quals": [] if quals == "~" else [q if q.startswith("!") else _frac(q) for q in quals.split("|")],
-            "ins": [] if ins == "~" else [i if i.startswith("!") else i == "1" for i in ins.split("|")]}
+            "ins": [] if ins == "~" else [i if i.startswith("!") else i == "1" for i in ins.split("|")],
+            "th": _unq(th), "values": [] if vals == "~" else [_unq(v) for v in vals.split("|")]}
 
 
 def _qeq(f, x) -> bool:
@@ -637,9 +672,19 @@ def _qeq(f, x) -> bool:
     return float(f) == float(x)
 
 
+def _repr_domain(items) -> bool:
+    """qualities whose float repr the model's to_header reproduces: 1, 0 (not the negative zero), or 1e-4 <= q < 1"""
+    import math
+    return all(q == 1 or (q == 0 and math.copysign(1, q) > 0) or 1e-4 <= q < 1 for _, q in items)
+
+
 def _same(model, impl) -> bool:
     if isinstance(model, str) or isinstance(impl, str):
         return model == impl
+    if model["values"] != impl["values"] or impl["str"] != impl["th"]:
+        return False
+    if _repr_domain(impl["items"]) and model["th"] != impl["th"]:
+        return False
     return (len(model["items"]) == len(impl["items"])
             and all(a[0] == b[0] and _qeq(a[1], b[1]) for a, b in zip(model["items"], impl["items"]))
             and model["best"] == impl["best"] and model["bm"] == impl["bm"]
@@ -723,6 +768,13 @@ def _oracle(chk: Check, fam: str, header, offers, obs, acc, meta, inp):
     late = _oracle_core(chk, fam, header, offers, obs, acc, meta, inp)
     if late and len(chk.failures) == n:
         chk.fail(late[0], late[1], inp)
+    if meta is not None and acc is not None and len(chk.failures) == n and _repr_domain(obs["items"]):
+        # str(accept) parses back to the same values, qualities and order (headers of the clean grammar)
+        from werkzeug.http import parse_accept_header
+        again = [(v, q) for v, q in parse_accept_header(obs["str"], type(acc))]
+        if again != obs["items"]:
+            chk.fail("to-header-roundtrip", f"parse(str(accept)) = {again!r}, accept = {obs['items']!r}", inp)
+        chk.count("oracle:to_header round trip")
 
 
 def _oracle_core(chk: Check, fam: str, header, offers, obs, acc, meta, inp):
@@ -989,7 +1041,7 @@ def run(chk: Check) -> None:
             if mism <= 5:
                 chk.broken("correspondence", "C17 model vs werkzeug", f"case {inp!r}: impl {want!r} model {got!r}",
                            case={"line": ln, "input": inp, "impl": repr(want), "model": got})
-    chk.count("model:unsupported(star-suffixed RFC 2231 parameter)", unsupported)
+    chk.count("model:unsupported(allow-listed charset without codec in the model)", unsupported)
     chk.count("model:compared", len(lines) - unsupported)
     chk.count("model:mismatches", mism)
 
@@ -1009,9 +1061,13 @@ def main(chk: Check) -> None:
         "comparisons), statement pins of parse_accept_header, Accept.quality/__contains__/_best_single_match/best_match, regex "
         "class tables via CPython re",
         "extraction ExtrOcamlBasic (no Extract Constant) + tools/conv.ml + coq/C17/driver.ml, OCaml 4.13.1",
-        "float vs decimal rational: q literals of at most 15 significant digits and at most 300 fraction digits are mapped "
-        "injectively and monotonically to floats, so every float comparison in the code equals the rational comparison of the "
-        "model (validated on the harness's literals); longer literals are outside the claimed domain",
+        "float contract = the Section hypothesis of C17_float_contract (coq/C17/ProofsRoundtrip.v, Section FloatContract): for q "
+        "literals a, b with sig15 (numerator magnitude below 10^15, i.e. at most 15 significant digits, and at most 300 fraction "
+        "digits) float(a) < / <= / == float(b) equals the comparison of the decimal rationals; under it the regenerated decision "
+        "expressions evaluated on floats equal the model's (validated on the harness's literals: float(s) == float(Fraction(s)) and "
+        "order agreement on all pairs); longer literals are outside the claimed domain (q=1.0000000000000001 is read as 1.0)",
+        "repr(float) for to_header / str: shortest decimal with at least one fraction digit, modelled for q = 0 and 1e-4 <= q < 1 "
+        "(smaller floats print with an exponent and the sign of -0.0 is lost: those cases are not compared)",
         "sorted(..., reverse=True) is a stable sort that keeps the input order of equal keys (modelled by the stable insertion "
         "sort of C17/LibSort.v; validated differentially)",
         "codecs.lookup(name).name / LookupError enters the model as a table computed by the harness for the names of each case",
@@ -1019,8 +1075,10 @@ def main(chk: Check) -> None:
         "/ _q_value_re / _mime_split_re / _locale_delim_re (pattern texts pinned in C17/Gen.v), str.strip/lstrip (29 white-space "
         "code points), str.replace, str.lower on ASCII (cases whose Unicode lower differs are skipped and counted); validated "
         "by differential execution",
-        "RFC 2231 parameters whose key ends in a star (charset / percent-decoding) are not modelled: the model answers "
-        "Unsupported and the case is skipped and counted",
+        "RFC 2231 parameters (key*=charset'lang'value): _charset_value_re matcher, urllib.parse.unquote with errors=replace for the "
+        "allow-listed charsets (ascii, us-ascii, utf-8 via lib/Utf8.v, iso-8859-1) are hand-modelled in C17/Model.v (own model, the "
+        "C06 model was read as a reference, not imported); an allow-listed name without a codec in the model would answer "
+        "Unsupported (counted)",
     ]
     run(chk)
     chk.finish(rule="per family (Accept, MIMEAccept, LanguageAccept, CharsetAccept): the q column of the quantifier exhaustively "
